@@ -1,4 +1,5 @@
 import SJ.Proofs.Tables
+import SJ.Proofs.Escape
 /-
 C04 — String escapes decode exactly, independent of length and alignment.
 -/
@@ -12,5 +13,35 @@ theorem C04_tables (b : UInt8) : digitToVal b = hexValSpec b ∧ escapeMap b = e
 /-- The quote and backslash broadcast constants of the string kernel. -/
 theorem C04_constants : ∀ i : Fin 32, Generated.aParseString.getD i.val 0 = 92 ∧ Generated.aParseString.getD (32 + i.val) 0 = 34 :=
   asm_tables_shared.2.2.2.2.2.2
+
+open SJ.Escape
+
+/-- The assembly's UTF-8 encoder agrees with Lean's own `String` encoder on every Unicode scalar value. -/
+theorem C04_utf8 (cp : UInt32) (h1 : cp.toNat < 0x110000) (h2 : ¬(0xD800 ≤ cp.toNat ∧ cp.toNat < 0xE000)) :
+    encodeUTF8 cp = some (Spec.utf8 cp.toNat) := encodeUTF8_spec cp h1 h2
+
+/-- The wrapped 32-bit arithmetic of the assembly combines every well-formed surrogate pair into its code point. -/
+theorem C04_surrogates (hi lo : UInt32) (h1 : 0xD800 ≤ hi.toNat) (h2 : hi.toNat < 0xDC00) (h3 : 0xDC00 ≤ lo.toNat)
+    (h4 : lo.toNat < 0xE000) :
+    ((((hi <<< 10) + 0xFCA00000) ||| (lo + 0xFFFF2400)) + 0x10000).toNat
+      = 0x10000 + (hi.toNat - 0xD800) * 1024 + (lo.toNat - 0xDC00) := surrogate_combine hi lo h1 h2 h3 h4
+
+/-- Four hex digits give their 16-bit value; one bad digit pushes the value above 0xFFFF (and is rejected);
+    the model's `hex4` agrees with the specification's. -/
+theorem C04_hex4 (a b c d : UInt8) (r : List UInt8) :
+    Spec.hex4 (a :: b :: c :: d :: r) =
+      if (hex4 #[a,b,c,d] 0).toNat ≤ 0xFFFF then some ((hex4 #[a,b,c,d] 0).toNat, r) else none := hex4_agrees_spec a b c d r
+theorem C04_hex4_invalid (a b c d : UInt8)
+    (h : Tables.hexValSpec a = 0xFFFFFFFF ∨ Tables.hexValSpec b = 0xFFFFFFFF ∨ Tables.hexValSpec c = 0xFFFFFFFF ∨ Tables.hexValSpec d = 0xFFFFFFFF) :
+    0xFFFF < (hex4 #[a,b,c,d] 0).toNat := hex4_invalid a b c d h
+
+/-- The compare immediates of the two hand-assembled string passes, decoded from their instruction bytes:
+    `u` (117), minimum distance to the closing quote for `\\uXXXX` (6) and for a surrogate pair (12), window
+    threshold 21, high-surrogate range 0xD800 (after masking with −1024), backslash (92), pair validity 0xFFFF,
+    and the UTF-8 length classes — validate pass `≥128`, `≥2048`, `≥65536`, `>1114111`; copy pass `>127`, `>2047`,
+    `>65535`, `>1114111`. The model's `encodeUTF8` uses exactly these classes. -/
+theorem C04_kernel_immediates :
+    Generated.aParseStringCmpValidate = [117, 6, 0, 21, 6, 55296, 128, 12, 92, 117, 65535, 128, 2048, 65536, 1114111] ∧
+    Generated.aParseStringCmpCopy = [65535, 1114111, 117, 6, 21, 6, 55296, 12, 92, 117, 65535, 127, 2047] := by decide
 
 end SJ.Properties.C04
